@@ -10,7 +10,8 @@ RULE = ('scenarios sweep max_improvement in {None,0,1,2}, skip_after_n_transform
         '{None,1,2}, start_with_pass naming the 1st/2nd/3rd pass, GIVEUP_CONSTANT in {2,3,5}, no_give_up on/off, MAX_CRASH_DIRS '
         'in {1,2,3,10} x N x schedules; oracle on the real run: per-step shrink <= max_improvement, accepted steps per file per '
         'pass <= limits, gated passes execute nothing and change nothing, never-accepting rounds stop within GIVEUP+N+1 '
-        'candidates, bug dirs <= MAX+1; non-trivial = distinct scenarios where some limit actually cut the run')
+        'candidates, bug dirs <= MAX+1; non-trivial = distinct scenarios where some limit actually cut the run'
+        ' Also: an earlier pass whose name has the --start-with-pass name as a proper prefix.')
 TRUSTED = T0
 ASSUMPTIONS = ['limit value 0 means "unlimited" in the code (falsy) — recorded as a known finding, modelled as such']
 
